@@ -164,6 +164,11 @@ pub enum Op {
     SetPsk { side: Side, loc: usize, klen: usize },
     ToTransport { side: Side },
     ToStateless { side: Side },
+    /// HandshakeState::dangerously_get_raw_split (feature risky-raw-split)
+    RawSplit { side: Side },
+    /// the same conversions through the public `TryFrom<HandshakeState>` impls
+    TryIntoTransport { side: Side },
+    TryIntoStateless { side: Side },
     /// stateful transport write / read
     TWrite { side: Side, plen: usize, cap: Cap },
     TRead { side: Side, msg: Msg, cap: Cap },
@@ -188,6 +193,9 @@ impl Op {
             | Op::SetPsk { side, .. }
             | Op::ToTransport { side }
             | Op::ToStateless { side }
+            | Op::RawSplit { side }
+            | Op::TryIntoTransport { side }
+            | Op::TryIntoStateless { side }
             | Op::TWrite { side, .. }
             | Op::TRead { side, .. }
             | Op::SetRecvNonce { side, .. }
@@ -656,7 +664,7 @@ impl Exec {
         // system forbids it); it is skipped and recorded as such.
         let phase_ok = matches!(
             (&self.real[i], op),
-            (RealEnd::Hs(_), Op::HsWrite { .. } | Op::HsRead { .. } | Op::SetPsk { .. } | Op::ToTransport { .. } | Op::ToStateless { .. })
+            (RealEnd::Hs(_), Op::HsWrite { .. } | Op::HsRead { .. } | Op::SetPsk { .. } | Op::ToTransport { .. } | Op::ToStateless { .. } | Op::RawSplit { .. } | Op::TryIntoTransport { .. } | Op::TryIntoStateless { .. })
                 | (
                     RealEnd::T(_),
                     Op::TWrite { .. }
@@ -691,8 +699,32 @@ impl Exec {
             Op::HsWrite { plen, cap, .. } => self.do_hs_write(side, *plen, cap, &mut rec),
             Op::HsRead { msg, cap, .. } => self.do_hs_read(side, msg, cap, &mut rec),
             Op::SetPsk { loc, klen, .. } => self.do_set_psk(side, *loc, *klen, &mut rec),
-            Op::ToTransport { .. } => self.do_convert(side, false, &mut rec),
-            Op::ToStateless { .. } => self.do_convert(side, true, &mut rec),
+            Op::RawSplit { .. } => {
+                let r = {
+                    let RealEnd::Hs(h) = &mut self.real[i] else { unreachable!() };
+                    catch_unwind(AssertUnwindSafe(|| h.dangerously_get_raw_split()))
+                };
+                rec.expect = Expect::Ok(None);
+                match r {
+                    Ok((k1, k2)) => {
+                        let mut out = k1.to_vec();
+                        out.extend_from_slice(&k2);
+                        // crypto layer: Split() of the reference at this point of the handshake
+                        if let (Some(m), false) = (&self.rhs[i], self.desync) {
+                            let (c1, c2) = m.ss.split();
+                            if c1.k != Some(k1) || c2.k != Some(k2) {
+                                self.push(Cat::WireBytes, format!("RawSplit {side:?}: dangerously_get_raw_split() differs from the reference Split() after {} messages", self.abs[i].pos));
+                            }
+                        }
+                        rec.real = Real::Ok(64, out);
+                    },
+                    Err(p) => rec.real = Real::Panic(panic_msg(p)),
+                }
+            },
+            Op::ToTransport { .. } => self.do_convert(side, false, false, &mut rec),
+            Op::ToStateless { .. } => self.do_convert(side, true, false, &mut rec),
+            Op::TryIntoTransport { .. } => self.do_convert(side, false, true, &mut rec),
+            Op::TryIntoStateless { .. } => self.do_convert(side, true, true, &mut rec),
             Op::TWrite { plen, cap, .. } => self.do_t_write(side, None, *plen, cap, &mut rec),
             Op::SWrite { nonce, plen, cap, .. } => self.do_t_write(side, Some(*nonce), *plen, cap, &mut rec),
             Op::TRead { msg, cap, .. } => self.do_t_read(side, None, msg, cap, &mut rec),
@@ -806,7 +838,7 @@ impl Exec {
         // a failed call must not change any public getter
         let post = self.getters(side);
         let failed = matches!(rec.real, Real::Err(_) | Real::Panic(_));
-        let conversion = matches!(op, Op::ToTransport { .. } | Op::ToStateless { .. });
+        let conversion = matches!(op, Op::ToTransport { .. } | Op::ToStateless { .. } | Op::TryIntoTransport { .. } | Op::TryIntoStateless { .. });
         if failed && !conversion && pre.public() != post.public() {
             self.push(Cat::NoOp, format!("{op:?} returned {} but public getters changed: {:?} -> {:?}", rec.real.short(), pre.public(), post.public()));
         }
@@ -1238,16 +1270,18 @@ impl Exec {
         rec.real = real;
     }
 
-    fn do_convert(&mut self, side: Side, stateless: bool, rec: &mut StepRecord) {
+    fn do_convert(&mut self, side: Side, stateless: bool, via_try_from: bool, rec: &mut StepRecord) {
         let i = side.idx();
         let a = self.abs[i].clone();
         let fin = a.pos == self.n_msgs();
         let RealEnd::Hs(h) = std::mem::replace(&mut self.real[i], RealEnd::Gone) else { unreachable!() };
         let r = catch_unwind(AssertUnwindSafe(move || {
-            if stateless {
-                h.into_stateless_transport_mode().map(|t| RealEnd::S(Box::new(t)))
-            } else {
-                h.into_transport_mode().map(|t| RealEnd::T(Box::new(t)))
+            use std::convert::TryFrom;
+            match (stateless, via_try_from) {
+                (true, false) => h.into_stateless_transport_mode().map(|t| RealEnd::S(Box::new(t))),
+                (false, false) => h.into_transport_mode().map(|t| RealEnd::T(Box::new(t))),
+                (true, true) => StatelessTransportState::try_from(*h).map(|t| RealEnd::S(Box::new(t))),
+                (false, true) => TransportState::try_from(*h).map(|t| RealEnd::T(Box::new(t))),
             }
         }));
         rec.expect = if fin { Expect::Ok(None) } else { Expect::Err(vec![EClass::NotFinished]) };
